@@ -372,7 +372,10 @@ static void c14_run(uint64_t seed, uint64_t index, bool thorough) {
     if(!okp) { G.add("c14.skip.unencodable"); return; }
     s.head.set("property", "C14"); s.head.set("program", SIM_PROGRAM); s.head.set("type", s.td->name);
     s.head.set("value", s.value_spec); s.head.set("mode", s.caller_mode ? "caller" : "lib");
+    s.head.set("realloc", r.chance(1, 2) ? "move" : "normal");
+    sim_alloc_always_move(s.head.get("realloc") == "move");
     status_head(s.head.head_str());
+    long moves_before = sim_alloc_total_moves();
     unsigned nh = thorough ? 6 : 3;
     for(unsigned h = 0; h < nh; h++) {
         std::vector<Op> ops = gen_history(s, r, &other);
@@ -427,6 +430,7 @@ static void c14_run(uint64_t seed, uint64_t index, bool thorough) {
                 if(fv.violated) { report_violation("C14", mk_sig(fv), fv.detail, s.head.head_str() + ops_str(fo)); break; }
             }
         }
+        G.add("c14.fired.realloc_moved", (uint64_t)(sim_alloc_total_moves() - moves_before)); moves_before = sim_alloc_total_moves();
         if(any_fired) G.seen("c14.nontrivial_histories", hash_str(s.head.head_str() + ops_str(ops)));
         if(G.samples.size() < 4 && (index + h) % 9 == 0) G.samples.push_back(s.head.head_str() + ops_str(with_fault(ops, [&] { Fault f; f.op = 0; f.k = 0; return f; }())));
     }
@@ -446,6 +450,7 @@ static ReplayResult c14_replay(const Plan &p) {
     sim_alloc_free_all_live();
     if(!okp) { rr.skipped = true; rr.detail = "value not encodable"; return rr; }
     s.head = p; s.head.ops.clear();
+    sim_alloc_always_move(p.get("realloc") == "move");
     std::vector<Op> plain = strip_faults(p.ops);
     Fault f = fault_of(p.ops);
     std::vector<Rec> recs;
